@@ -737,6 +737,23 @@ def D3(m, R):
                                     'together, while the twin removes each given setting wherever it is active -- with two settings that never overlap '
                                     '(bold on [0,3), red on [5,8)) nothing is removed although both are given' % short(g_), construct=cons)
                 continue
+        if expr is None and name == 'simplify' and body and isinstance(body[0], ast.If) and not body[0].orelse and len(body[0].body) == 1 and \
+                isinstance(body[0].body[0], ast.Return) and is_name(body[0].body[0].value, selfn):
+            # an early `return self` of simplify() guarded by per-setting predicates only (every setting valid / parsable / optimizable): the twin
+            # re-parses its own rendering on every call (an unconditional set_ansi_str(..) at the top level of its body), which also merges
+            # redundant and shadowed settings -- a fact about the settings *together* that no per-setting predicate states
+            g_ = body[0].test
+            atoms = list(g_.values) if isinstance(g_, ast.BoolOp) and isinstance(g_.op, ast.And) else [g_]
+            per_setting = ('is_formatting_parsable', 'is_formatting_valid', 'is_optimizable')
+            only_preds = all(isinstance(a_, ast.Call) and call_name(a_) in per_setting and not a_.args and not a_.keywords and
+                             norm(a_.func.value) in (selfn, wrapped) for a_ in atoms)
+            reparse = [st_ for st_ in tw.body if isinstance(st_, ast.Expr) and isinstance(st_.value, ast.Call) and call_name(st_.value) == 'set_ansi_str' and
+                       norm(st_.value.func.value) == tw.self_name]
+            if only_preds and reparse:
+                R.viol(sf, body[0], 'returns this AnsiStr unchanged when %s: that says every setting is well-formed on its own, while the twin re-parses its own '
+                                    'rendering on every call (L%d %s) and so also drops redundant and shadowed settings -- bold on [0,4) applied twice is '
+                                    'parsable, and simplify() leaves one' % (short(g_), reparse[0].lineno, short(reparse[0])), construct=cons)
+                continue
         if expr is None:
             R.undecided(sf, sf.node, 'twin form not recognised', construct=cons)
             continue
